@@ -134,6 +134,7 @@ class Program:
             self.desugar_stats, self.desugarer = {}, None
             for m in self.mods.values():
                 # one spelling per operation, and a function that only hands its parameters on IS the function it hands them to
+                desugar._alias_prepass(m.tree)          # (a second name for a parameter: `x = p` with neither re-bound)
                 desugar._thin_wrappers(desugar._Spelling(m.tree).visit(m.tree))
                 ast.fix_missing_locations(m.tree)
         else:
